@@ -224,6 +224,26 @@ class Interp:
                     env.update(e2)
                     return True
             return False
+        if k == "slice":
+            if not isinstance(v, list):
+                raise Unsupported("slice pattern on %r" % (v,))
+            before, after, mid = pat.get("before") or [], pat.get("after") or [], pat.get("mid")
+            if mid is None:
+                if len(v) != len(before) + len(after):
+                    return False
+            elif len(v) < len(before) + len(after):
+                return False
+            for p_, x_ in zip(before, v[:len(before)]):
+                if not self.bind(p_, x_, env):
+                    return False
+            if after:
+                for p_, x_ in zip(after, v[len(v) - len(after):]):
+                    if not self.bind(p_, x_, env):
+                        return False
+            if mid is not None and mid.get("k") != "wild":
+                if not self.bind(mid, v[len(before):len(v) - len(after)], env):
+                    return False
+            return True
         if k == "tuple":
             if isinstance(v, Opaque):
                 raise Unsupported("tuple pattern on opaque")
@@ -356,7 +376,14 @@ class Interp:
                 return not v
             raise Unsupported("unary %s" % e["op"])
         if k == "cast":
-            return self.ev(e["e"], env, depth)
+            v_ = self.ev(e["e"], env, depth)
+            ty_ = self.f.ty(e.get("ty")) or ""
+            if isinstance(v_, Ch) and ty_ in ("u32", "u64", "usize", "i32", "i64", "u8", "u16"):
+                n_ = ord(v_.c)
+                return n_ & {"u8": 0xFF, "u16": 0xFFFF}.get(ty_, 0xFFFFFFFFFFFFFFFF)
+            if isinstance(v_, int) and not isinstance(v_, bool) and ty_ == "char":
+                return Ch(chr(v_ & 0xFF))
+            return v_
         if k == "binary":
             op = e["op"]
             if op == "&&":
@@ -618,9 +645,22 @@ class Interp:
                 s += p["lit"]
             else:
                 v = self.ev(p["arg"], env, depth)
-                if p.get("width") is not None or p.get("flags") is not None or p.get("precision") is not None:
-                    raise Unsupported("format spec")
-                s += self.display(v)
+                tr = p.get("trait") or "display"
+                plain = p.get("width") is None and p.get("precision") is None and tr == "display"
+                if plain:
+                    s += self.display(v)
+                    continue
+                # integer formatting: {:02X}, {:x}, {:5}
+                if isinstance(v, int) and not isinstance(v, bool) and p.get("precision") is None and tr in ("display", "upper_hex", "lower_hex") and \
+                        isinstance(p.get("width"), (int, type(None))):
+                    txt = {"display": "%d", "upper_hex": "%X", "lower_hex": "%x"}[tr] % v
+                    w = p.get("width") or 0
+                    flags = p.get("flags") or 0
+                    if len(txt) < w:
+                        txt = txt.rjust(w, "0") if flags & (1 << 24) else txt.rjust(w, chr(flags & 0x1FFFFF) if flags & 0x1FFFFF else " ")
+                    s += txt
+                    continue
+                raise Unsupported("format spec")
         return s
 
     def display(self, v):
@@ -649,6 +689,12 @@ class Interp:
                 recv = [self.ev(e["recv"], env, depth)] if e.get("k") == "mcall" else []
                 args = [self.ev(a, env, depth) for a in e.get("args") or []]
                 return self.builtins[key](self, recv + args)
+        for key in (c, decl):
+            if key in CHAR_MODEL:
+                recv = [self.ev(e["recv"], env, depth)] if e.get("k") == "mcall" else []
+                args = [self.ev(a, env, depth) for a in e.get("args") or []]
+                if (recv + args) and isinstance((recv + args)[0], (Ch, int)) and not isinstance((recv + args)[0], bool):
+                    return CHAR_MODEL[key](recv + args)
         # vec![a, b, ..] : box_assume_init_into_vec_unsafe(write_box_via_move(Box::new_uninit(), [a, b, ..]))
         if decl == "alloc::boxed::box_assume_init_into_vec_unsafe" and "vec" in (e.get("mac") or []):
             inner = e["args"][0]
@@ -667,7 +713,8 @@ class Interp:
                                       decl.startswith("alloc::string::String::") or decl.startswith("alloc::slice::<impl [") or
                                       decl.startswith("alloc::str::<impl alloc::slice::Join")) and \
                 name in ("replace", "split", "contains", "starts_with", "ends_with", "len", "is_empty", "to_string", "to_owned", "as_str", "clone",
-                         "into_boxed_str", "chars", "bytes", "char_indices", "parse", "join", "concat"):
+                         "into_boxed_str", "chars", "bytes", "char_indices", "parse", "join", "concat", "find", "rfind", "trim", "to_uppercase",
+                         "to_lowercase", "repeat", "strip_prefix", "strip_suffix", "split_at", "as_bytes"):
             v = self.ev(e["recv"], env, depth)
             args = [self.ev(a, env, depth) for a in e.get("args") or []]
             if any(isinstance(x, Opaque) for x in args) or isinstance(v, Opaque):
@@ -686,6 +733,31 @@ class Interp:
                     return v.split(as_text(args[0]))
                 if name == "contains" and len(args) == 1:
                     return as_text(args[0]) in v
+                if name in ("find", "rfind") and len(args) == 1 and isinstance(args[0], (Ch, str)):
+                    i_ = v.find(as_text(args[0])) if name == "find" else v.rfind(as_text(args[0]))
+                    return ("__some", len(v[:i_].encode("utf-8"))) if i_ >= 0 else None
+                if name == "trim" and not args:
+                    return v.strip()
+                if name == "to_uppercase" and not args:
+                    return v.upper()
+                if name == "to_lowercase" and not args:
+                    return v.lower()
+                if name == "repeat" and len(args) == 1 and isinstance(args[0], int):
+                    return v * args[0]
+                if name == "strip_prefix" and len(args) == 1:
+                    p_ = as_text(args[0])
+                    return ("__some", v[len(p_):]) if v.startswith(p_) else None
+                if name == "strip_suffix" and len(args) == 1:
+                    p_ = as_text(args[0])
+                    return ("__some", v[:len(v) - len(p_)]) if v.endswith(p_) else None
+                if name == "split_at" and len(args) == 1 and isinstance(args[0], int):
+                    b_ = v.encode("utf-8")
+                    try:
+                        return (b_[:args[0]].decode("utf-8"), b_[args[0]:].decode("utf-8"))
+                    except UnicodeDecodeError:
+                        raise Diverged("split_at inside a character")
+                if name == "as_bytes" and not args:
+                    return list(v.encode("utf-8"))
                 if name == "starts_with" and len(args) == 1:
                     return v.startswith(as_text(args[0]))
                 if name == "ends_with" and len(args) == 1:
@@ -897,6 +969,14 @@ class Interp:
                 return ("__some", x) if b else None
             clo = self.ev(e["args"][0], env, depth)
             return ("__some", self.apply_closure(clo, [], depth + 1)) if b else None
+        if decl in ("core::convert::From::from", "alloc::string::ToString::to_string", "alloc::borrow::ToOwned::to_owned") and e.get("k") == "call" and len(e.get("args") or []) == 1:
+            ty_ = self.f.ty(e.get("ty")) or ""
+            if ty_ in ("alloc::string::String", "alloc::borrow::Cow<'_, str>", "alloc::boxed::Box<str>"):
+                v0 = self.ev(e["args"][0], env, depth)
+                if isinstance(v0, str):
+                    return v0           # String::from("text")
+                if isinstance(v0, Ch):
+                    return v0.c
         if decl in ("core::convert::Into::into", "core::convert::From::from") and e.get("k") == "call" and self.opaque_conversions:
             v = self.ev(e["args"][0], env, depth)
             if isinstance(v, Opaque):
@@ -915,7 +995,8 @@ class Interp:
             if self.free_opaque and isinstance(v, Opaque):
                 return "<%s>" % v.tag
             return self.display(v)
-        if e.get("k") == "mcall" and name in ("as_ref", "deref", "borrow", "clone", "to_owned", "as_str", "into", "unwrap", "as_mut", "by_ref") and not e.get("args"):
+        if e.get("k") == "mcall" and name in ("as_ref", "deref", "borrow", "clone", "to_owned", "as_str", "into", "unwrap", "as_mut", "by_ref", "as_slice",
+                                             "as_mut_slice", "as_deref", "iter_mut") and not e.get("args"):
             v = self.ev(e["recv"], env, depth)
             if name == "unwrap":
                 if v is None:
@@ -1003,6 +1084,64 @@ class Interp:
         raise Unsupported("call %s" % (c or decl))
 
 
+def _to_digit(a):
+    c, radix = a[0].c, a[1]
+    try:
+        v = int(c, 36) if (c.isascii() and c.isalnum()) else None
+    except ValueError:
+        v = None
+    return ("__some", v) if v is not None and v < radix else None
+
+
+def _from_u32(a):
+    n = a[0]
+    if 0 <= n <= 0x10FFFF and not (0xD800 <= n <= 0xDFFF):
+        return ("__some", Ch(chr(n)))
+    return None
+
+
+def _from_digit(a):
+    n, radix = a[0], a[1]
+    if 0 <= n < radix <= 36:
+        return ("__some", Ch("0123456789abcdefghijklmnopqrstuvwxyz"[n]))
+    return None
+
+
+_CM = "core::char::methods::<impl char>::"
+CHAR_MODEL = {
+    _CM + "to_digit": _to_digit,
+    _CM + "is_digit": lambda a: _to_digit(a) is not None,
+    _CM + "from_u32": _from_u32,
+    "core::char::convert::from_u32": _from_u32,
+    _CM + "from_digit": _from_digit,
+    "core::char::convert::from_digit": _from_digit,
+    _CM + "is_ascii": lambda a: a[0].c.isascii(),
+    _CM + "is_ascii_digit": lambda a: a[0].c in "0123456789",
+    _CM + "is_ascii_hexdigit": lambda a: a[0].c in "0123456789abcdefABCDEF",
+    _CM + "is_ascii_alphabetic": lambda a: a[0].c.isascii() and a[0].c.isalpha(),
+    _CM + "is_ascii_alphanumeric": lambda a: a[0].c.isascii() and a[0].c.isalnum(),
+    _CM + "is_ascii_lowercase": lambda a: a[0].c.isascii() and a[0].c.islower(),
+    _CM + "is_ascii_uppercase": lambda a: a[0].c.isascii() and a[0].c.isupper(),
+    _CM + "is_ascii_whitespace": lambda a: a[0].c in " \t\n\r\x0c",
+    _CM + "is_ascii_control": lambda a: ord(a[0].c) < 32 or ord(a[0].c) == 127,
+    _CM + "to_ascii_lowercase": lambda a: Ch(a[0].c.lower() if a[0].c.isascii() else a[0].c),
+    _CM + "to_ascii_uppercase": lambda a: Ch(a[0].c.upper() if a[0].c.isascii() else a[0].c),
+    _CM + "len_utf8": lambda a: len(a[0].c.encode("utf-8")),
+}
+
+
+def _nth(it, recv, args, depth):
+    n = args[0]
+    if not isinstance(recv, list) or not isinstance(n, int):
+        raise Unsupported("nth")
+    if n < len(recv):
+        x = recv[n]
+        del recv[:n + 1]       # the iterator has advanced past it
+        return ("__some", x)
+    del recv[:]
+    return None
+
+
 def _fold(it, recv, args, depth):
     acc = args[0]
     for x in list(recv):
@@ -1040,7 +1179,10 @@ def _filter(it, recv, args, depth):
 
 ITER_BUILTINS = {"chars": _chars, "take": _take, "all": _all, "any": _any,
                  "map": lambda it, r, a, d: [it.apply_closure(a[0], [x], d) for x in list(r)],
-                 "filter": _filter,
+                 "filter": _filter, "nth": _nth,
+                 "for_each": lambda it, r, a, d: ([it.apply_closure(a[0], [x], d) for x in list(r)], ())[1],
+                 "count": lambda it, r, a, d: len(list(r)),
+                 "position": lambda it, r, a, d: next((("__some", i) for i, x in enumerate(list(r)) if it._bool(it.apply_closure(a[0], [x], d))), None),
                  "zip": lambda it, r, a, d: list(zip(list(r), list(a[0]))),
                  "enumerate": lambda it, r, a, d: [(i, x) for i, x in enumerate(list(r))],
                  "iter": lambda it, r, a, d: list(r), "into_iter": lambda it, r, a, d: list(r),
